@@ -4,6 +4,7 @@
   Everything is in namespace `C03` so that it cannot clash with other builders' helper files.
 -/
 import SmoothProofs.Real
+import SmoothProofs.C03Attr
 import Mathlib.Algebra.BigOperators.Fin
 import Mathlib.Data.Matrix.Mul
 import Mathlib.Tactic.Ring
@@ -96,33 +97,57 @@ theorem mat_ext_mulVec {n m : Nat} {A B : Mat ℝ n m} (h : ∀ v, mulVec A v = 
 /-! ### entry lemmas for the literal constructors (much faster than unfolding the `match`) -/
 section entries
 variable (a b c d e f g h k : ℝ)
-@[simp] theorem mat3_00 : (mat3 a b c d e f g h k) 0 0 = a := rfl
-@[simp] theorem mat3_01 : (mat3 a b c d e f g h k) 0 1 = b := rfl
-@[simp] theorem mat3_02 : (mat3 a b c d e f g h k) 0 2 = c := rfl
-@[simp] theorem mat3_10 : (mat3 a b c d e f g h k) 1 0 = d := rfl
-@[simp] theorem mat3_11 : (mat3 a b c d e f g h k) 1 1 = e := rfl
-@[simp] theorem mat3_12 : (mat3 a b c d e f g h k) 1 2 = f := rfl
-@[simp] theorem mat3_20 : (mat3 a b c d e f g h k) 2 0 = g := rfl
-@[simp] theorem mat3_21 : (mat3 a b c d e f g h k) 2 1 = h := rfl
-@[simp] theorem mat3_22 : (mat3 a b c d e f g h k) 2 2 = k := rfl
-@[simp] theorem mat2_00 : (mat2 a b c d) 0 0 = a := rfl
-@[simp] theorem mat2_01 : (mat2 a b c d) 0 1 = b := rfl
-@[simp] theorem mat2_10 : (mat2 a b c d) 1 0 = c := rfl
-@[simp] theorem mat2_11 : (mat2 a b c d) 1 1 = d := rfl
-@[simp] theorem mk1_0 : (mk1 a) 0 = a := rfl
-@[simp] theorem mk2_0 : (mk2 a b) 0 = a := rfl
-@[simp] theorem mk2_1 : (mk2 a b) 1 = b := rfl
-@[simp] theorem mk3_0 : (mk3 a b c) 0 = a := rfl
-@[simp] theorem mk3_1 : (mk3 a b c) 1 = b := rfl
-@[simp] theorem mk3_2 : (mk3 a b c) 2 = c := rfl
-@[simp] theorem mk4_0 : (mk4 a b c d) 0 = a := rfl
-@[simp] theorem mk4_1 : (mk4 a b c d) 1 = b := rfl
-@[simp] theorem mk4_2 : (mk4 a b c d) 2 = c := rfl
-@[simp] theorem mk4_3 : (mk4 a b c d) 3 = d := rfl
+@[simp, c03e] theorem mat3_00 : (mat3 a b c d e f g h k) 0 0 = a := rfl
+@[simp, c03e] theorem mat3_01 : (mat3 a b c d e f g h k) 0 1 = b := rfl
+@[simp, c03e] theorem mat3_02 : (mat3 a b c d e f g h k) 0 2 = c := rfl
+@[simp, c03e] theorem mat3_10 : (mat3 a b c d e f g h k) 1 0 = d := rfl
+@[simp, c03e] theorem mat3_11 : (mat3 a b c d e f g h k) 1 1 = e := rfl
+@[simp, c03e] theorem mat3_12 : (mat3 a b c d e f g h k) 1 2 = f := rfl
+@[simp, c03e] theorem mat3_20 : (mat3 a b c d e f g h k) 2 0 = g := rfl
+@[simp, c03e] theorem mat3_21 : (mat3 a b c d e f g h k) 2 1 = h := rfl
+@[simp, c03e] theorem mat3_22 : (mat3 a b c d e f g h k) 2 2 = k := rfl
+@[simp, c03e] theorem mat2_00 : (mat2 a b c d) 0 0 = a := rfl
+@[simp, c03e] theorem mat2_01 : (mat2 a b c d) 0 1 = b := rfl
+@[simp, c03e] theorem mat2_10 : (mat2 a b c d) 1 0 = c := rfl
+@[simp, c03e] theorem mat2_11 : (mat2 a b c d) 1 1 = d := rfl
+@[simp, c03e] theorem mk1_0 : (mk1 a) 0 = a := rfl
+@[simp, c03e] theorem mk2_0 : (mk2 a b) 0 = a := rfl
+@[simp, c03e] theorem mk2_1 : (mk2 a b) 1 = b := rfl
+@[simp, c03e] theorem mk3_0 : (mk3 a b c) 0 = a := rfl
+@[simp, c03e] theorem mk3_1 : (mk3 a b c) 1 = b := rfl
+@[simp, c03e] theorem mk3_2 : (mk3 a b c) 2 = c := rfl
+@[simp, c03e] theorem mk4_0 : (mk4 a b c d) 0 = a := rfl
+@[simp, c03e] theorem mk4_1 : (mk4 a b c d) 1 = b := rfl
+@[simp, c03e] theorem mk4_2 : (mk4 a b c d) 2 = c := rfl
+@[simp, c03e] theorem mk4_3 : (mk4 a b c d) 3 = d := rfl
 end entries
 
-@[simp] theorem memoM_eq' {n m : Nat} (f : Mat ℝ n m) : memoM f = f := memoM_eq f
-@[simp] theorem memoV_eq' {n : Nat} (f : Vec ℝ n) : memoV f = f := memoV_eq f
+@[simp, c03e] theorem memoM_eq' {n m : Nat} (f : Mat ℝ n m) : memoM f = f := memoM_eq f
+@[simp, c03e] theorem memoV_eq' {n : Nat} (f : Vec ℝ n) : memoV f = f := memoV_eq f
+
+
+
+/-- evaluate index conditions (`dite` on literal `Fin` values, `Fin.mk` of literal arithmetic) -/
+macro "c03_eval" : tactic => `(tactic|
+  simp only [Fin.isValue, Fin.coe_ofNat_eq_mod, Fin.zero_eta, Fin.mk_one, Fin.reduceFinMk, Fin.reduceEq, Fin.reduceNe,
+    Nat.reduceMod, Nat.reduceDiv, Nat.reduceMul, Nat.reduceLeDiff, Nat.reduceLT, Nat.reduceAdd, Nat.reduceSub,
+    Nat.reduceEqDiff, le_refl, zero_le, and_true, true_and, and_false, false_and, and_self, dite_true, dite_false,
+    ↓reduceDIte, ↓reduceIte, Nat.lt_irrefl, Nat.not_ofNat_le_one, Nat.ofNat_pos, Fin.val_zero, Fin.val_one,
+    Nat.zero_add, Nat.add_zero, lt_self_iff_false, zero_lt_one, Nat.lt_one_iff, not_false_eq_true, not_true_eq_false,
+    if_true, if_false, OfNat.ofNat_ne_zero, OfNat.zero_ne_ofNat, OfNat.ofNat_ne_one, OfNat.one_ne_ofNat,
+    zero_ne_one, one_ne_zero, Nat.one_lt_ofNat, Nat.not_ofNat_lt_one])
+
+/-! ### explicit small sums -/
+@[c03e] theorem vsum_1 (f : Fin 1 → ℝ) : vsum 1 f = f 0 := by simp [vsum]
+@[c03e] theorem vsum_2 (f : Fin 2 → ℝ) : vsum 2 f = f 0 + f 1 := by simp [vsum]
+@[c03e] theorem vsum_3 (f : Fin 3 → ℝ) : vsum 3 f = f 0 + f 1 + f 2 := by simp [vsum]
+@[c03e] theorem vsum_4 (f : Fin 4 → ℝ) : vsum 4 f = f 0 + f 1 + f 2 + f 3 := by simp [vsum]
+@[c03e] theorem vsum_5 (f : Fin 5 → ℝ) : vsum 5 f = f 0 + f 1 + f 2 + f 3 + f 4 := by simp [vsum]
+@[c03e] theorem vsum_6 (f : Fin 6 → ℝ) : vsum 6 f = f 0 + f 1 + f 2 + f 3 + f 4 + f 5 := by simp [vsum]
+@[c03e] theorem vsum_10 (f : Fin 10 → ℝ) :
+    vsum 10 f = f 0 + f 1 + f 2 + f 3 + f 4 + f 5 + f 6 + f 7 + f 8 + f 9 := by simp [vsum]
+
+attribute [c03e] Lin.Mat.of_get Lin.Vec.of_get Scalar.nat_real
 
 /-! ### block-diagonal algebra (`Bundle.bdiag`, `fst`, `snd`, `tl`, `br`, `vcat`) -/
 
